@@ -12,6 +12,7 @@ from nix_manipulator.expressions.expression import (
     coerce_expression,
 )
 from nix_manipulator.expressions.layout import empty_line, linebreak
+from nix_manipulator.expressions.path import NixPath
 from nix_manipulator.expressions.trivia import (
     collect_comment_trivia_between,
     format_interstitial_trivia_with_separator,
@@ -118,6 +119,15 @@ class UnaryExpression(TypedExpression):
             include_indent=False,
             drop_blank_line_if_items=False,
         )
+
+        if (
+            self.operator == "-"
+            and not between_str
+            and not operand_prefix
+            and isinstance(self.expression, NixPath)
+        ):
+            # `-./p` would be read as one path literal.
+            operand_prefix = " "
 
         indentation = "" if inline else " " * indent
         if self.operator == "++" and not inline:
